@@ -23,9 +23,14 @@ import (
 	"strconv"
 	"strings"
 
+	"lunar/engine/config"
+	lunarMessages "lunar/engine/messages"
+	"lunar/engine/services/diagnoses"
 	harcollector "lunar/engine/streams/processors/har-collector"
 	test_utils "lunar/engine/streams/test-utils"
 	"lunar/engine/utils/obfuscation"
+	sharedConfig "lunar/shared-model/config"
+	"lunar/toolkit-core/clock"
 
 	"verifharness/internal/vh"
 )
@@ -159,7 +164,7 @@ func renderExcl(x Excl) string {
 	}
 	var b strings.Builder
 	switch x.N {
-	case "plain":
+	case "plain", "plain_other":
 	case "request":
 		b.WriteString("$.request.body")
 	case "response":
@@ -269,6 +274,50 @@ func compare(d *Doc, out any, path []string, leaves *[]Leaf, shape *string) {
 	}
 }
 
+// legacy runs the real HARGeneratorPlugin.GenerateHAR (legacy diagnosis exporter) with the document as request and as
+// response body; exclusions go to the list of the body under test, those tagged "plain_other" to the other list.
+func legacy(obf obfuscation.Obfuscator, c Case, text string, excl []string) (string, error) {
+	mine, other := []string{}, []string{}
+	for i, x := range c.Excl {
+		if x.N == "plain_other" {
+			other = append(other, excl[i])
+		} else {
+			mine = append(mine, excl[i])
+		}
+	}
+	cfg := &sharedConfig.HARExporterConfig{TransactionMaxSize: 1 << 30, Obfuscate: sharedConfig.Obfuscate{Enabled: true}}
+	if c.Entry == "legacy_request" {
+		cfg.Obfuscate.Exclusions.RequestBodyPaths, cfg.Obfuscate.Exclusions.ResponseBodyPaths = mine, other
+	} else {
+		cfg.Obfuscate.Exclusions.RequestBodyPaths, cfg.Obfuscate.Exclusions.ResponseBodyPaths = other, mine
+	}
+	tree, err := config.BuildEndpointPolicyTree([]sharedConfig.EndpointConfig{})
+	if err != nil {
+		return "", err
+	}
+	plugin := diagnoses.NewHARGeneratorPlugin(clock.NewMockClock(), obf)
+	req := lunarMessages.OnRequest{ID: "t", SequenceID: "t", Method: "POST", Scheme: "https", URL: "api.test/users/1",
+		Headers: map[string]string{"content-type": "application/json"}, Body: text}
+	resp := lunarMessages.OnResponse{ID: "t", SequenceID: "t", Method: "POST", URL: "api.test/users/1", Status: 200,
+		Headers: map[string]string{"content-type": "application/json"}, Body: text}
+	h, err := plugin.GenerateHAR(req, resp, tree, cfg)
+	if err != nil {
+		return "", err
+	}
+	if len(h.Log.Entries) != 1 {
+		return "", fmt.Errorf("%d HAR entries", len(h.Log.Entries))
+	}
+	var body any = h.Log.Entries[0].Request.Body
+	if c.Entry == "legacy_response" {
+		body = h.Log.Entries[0].Response.Content
+	}
+	s, ok := body.(string)
+	if !ok {
+		return "", fmt.Errorf("HAR body is %T", body)
+	}
+	return s, nil
+}
+
 func main() {
 	vh.Quiet()
 	if len(os.Args) != 4 || os.Args[1] != "run" {
@@ -301,6 +350,8 @@ func main() {
 			stream := test_utils.NewMockAPIStream("https://api.test/users/1?id=2",
 				map[string]string{"authorization": "Bearer t"}, map[string]string{"content-type": "application/json"}, text, text)
 			outText = harcollector.VerifObfuscateBody(excl, stream, text, c.Entry == "har_response")
+		case "legacy_request", "legacy_response":
+			outText, err = legacy(obf, c, text, excl)
 		default:
 			vh.Die("unknown entry %q", c.Entry)
 		}
